@@ -601,6 +601,9 @@ func scenarios(tier string) []*explore.Scenario {
 			add(scen{Proto: proto, Steps: []step{{Kind: "init"}, {Kind: "start", ID: 1}, {Kind: "close-frame"}}, Script: script, InitFunc: "accept-detached"}, &one)
 		}
 		add(scen{Proto: proto, Steps: []step{{Kind: "init"}, {Kind: "start", ID: 1}, {Kind: "stop", ID: 1}, {Kind: "await-cancel", ID: 1}}, Script: "block", InitFunc: "accept-detached"}, &one)
+		// ... also with the keep-alive / pong-only timers configured: their goroutines end with the connection
+		add(scen{Proto: proto, Steps: []step{{Kind: "init"}, {Kind: "start", ID: 1}}, Script: "emit-end", InitFunc: "accept-detached", KeepAlive: true}, &one)
+		add(scen{Proto: proto, Steps: []step{{Kind: "init"}, {Kind: "start", ID: 1}, {Kind: "close-frame"}}, Script: "block", InitFunc: "accept-detached", KeepAlive: true}, &one)
 		// two closers overlapping: the server context is cancelled while a client frame makes the
 		// server close the connection as well (the close callback still fires exactly once)
 		for _, sc := range []string{"plain", "reason"} {
